@@ -1134,11 +1134,17 @@ fn make_case(id: String, steps: Vec<Step>) -> (CaseOut, bool) {
             for b in show.as_bytes() {
                 hsh = (hsh ^ *b as u64).wrapping_mul(0x100000001b3);
             }
+            // histories beyond 1500 requests are judged by the oracle only: a Gallina term of that
+            // size costs the Coq parser minutes (the model evaluation itself takes milliseconds)
+            let modelled = nreq <= 1500;
+            if !modelled {
+                tags.push("oracle-only:longer-than-1500".into());
+            }
             (CaseOut {
                 id,
                 input: serde_json::to_value(&steps).unwrap(),
-                coq_case: Some(coq_case(&steps)),
-                expect: Some(v.coq()),
+                coq_case: if modelled { Some(coq_case(&steps)) } else { None },
+                expect: if modelled { Some(v.coq()) } else { None },
                 impl_show: short,
                 oracle_ok: why.is_empty(),
                 oracle_why: why.join(" | "),
@@ -1205,7 +1211,7 @@ fn main() {
     }
     if args.case.is_none() {
         let mut rng = Rng::new(args.seed);
-        let n = args.n.unwrap_or(if args.thorough() { 48 } else { 10 });
+        let n = args.n.unwrap_or(if args.thorough() { 24 } else { 10 });
         for i in 0..n {
             let mut r = rng.fork();
             let (target, big) = if args.thorough() {
